@@ -21,6 +21,11 @@ type C03Spec struct {
 	N      int       `json:"n"`
 	Sweep  bool      `json:"sweep,omitempty"`
 	Budget int       `json:"budget,omitempty"`
+	// ByteSoup: AllowChars holds stray bytes that are not valid UTF-8 on their own (escaped as in
+	// escWord) between ASCII characters. What the alphabet of such a recipe is, the statement does not
+	// say; what every returned password still must be is Length atom tokens whose concatenation is
+	// String() - nothing else is judged.
+	ByteSoup bool `json:"byte_soup,omitempty"`
 }
 
 // checkCharPassword applies the C03 predicate to one returned password.
@@ -87,6 +92,16 @@ func init() {
 				}
 				return s
 			}
+			if r.Chance(0.02) {
+				s.ByteSoup = true
+				var sb strings.Builder
+				for k := 2 + r.Intn(4); k > 0; k-- {
+					sb.WriteString(pick(r, []string{"\xc3", "\xa9", "\xe2", "\x82", "\xac", "\xf0", "\x9f", "\xc2"}))
+					sb.WriteString(pick(r, []string{"|", "a", "", "é"}))
+				}
+				s.Cfg = CharCfg{Length: 8 + r.Intn(40), AllowChars: escWord(sb.String())}
+				return s
+			}
 			if r.Chance(0.3) {
 				s.Sweep = true
 				s.Budget = 400
@@ -128,6 +143,31 @@ func init() {
 func runC03(c *Ctx, si interface{}) {
 	s := si.(*C03Spec)
 	curOrders = s.Orders
+	if s.ByteSoup {
+		rec := spg.CharRecipe{Length: s.Cfg.Length, AllowChars: realWord(s.Cfg.AllowChars)}
+		for i := 0; i < 8; i++ {
+			res := genOp(NewTape(TapeSpec{Mode: "choice", Seed: mix(s.Tape.Seed, "soup", i), Default: "random"}), &rec)
+			c.Eval(1)
+			// no transcript: on such input the unchanged library's alphabet depends on set iteration
+			// order (stray bytes may be glued into one character), so runs legitimately differ
+			if res.Kind != "ok" {
+				continue
+			}
+			c.Count("byte_soup_passwords_checked", 1)
+			c.Distinct("soup", s.Cfg.AllowChars, res.Pw.S)
+			atoms := 0
+			for _, t := range res.Pw.Tokens {
+				if t.T == 1 {
+					atoms++
+				}
+			}
+			if len(res.Pw.Tokens) != s.Cfg.Length || atoms != s.Cfg.Length || joinToks(res.Pw.Tokens) != res.Pw.S {
+				c.Violate("invalid-password", "token-count-byte-soup", "CharRecipe{Length: %d, AllowChars: %q}: %d tokens (%d atoms), concatenation equals String(): %v", s.Cfg.Length, realWord(s.Cfg.AllowChars), len(res.Pw.Tokens), atoms, joinToks(res.Pw.Tokens) == res.Pw.S)
+				return
+			}
+		}
+		return
+	}
 	m := modelChar(s.Cfg)
 	rec := s.Cfg.Recipe()
 	nontrivial := len(m.Req) > 0 || len(m.Excluded) > 0
